@@ -51,6 +51,8 @@ CONSTANTS
                   \* after overflow) convergence?  ("converged" = the guard `norm >= tol: continue`: must be refuted)
     FluxRule,     \* "segment" | "stale": which parameter values the fluxes reported with a steady-state point are
                   \* evaluated under: the point's own segment, or a stale earlier segment's (must be refuted)
+    ScanNorm,     \* "asked" | "absolute": which norm a search started through the scan-family entry points uses:
+                  \* the one the caller asked for, or always the absolute one (rel_norm dropped: must be refuted)
     Reporter,     \* "contract" | "earlier": what get_result reports after a failed search on a simulator that
                   \* already holds results ("earlier" = hand back the earlier results: must be refuted by TLC)
     EmitOn
@@ -92,7 +94,12 @@ SumSq(v) == FoldSet(LAMBDA i, acc : acc + v[i] * v[i], 0, DOMAIN v)
 (***************************************************************************)
 Case(net, kind, m, m2, ystar, dev, c, td, rel, user) ==
     [net |-> net, kind |-> kind, m |-> m, m2 |-> m2, ystar |-> ystar, dev |-> dev, c |-> c,
-     td |-> td, rel |-> rel, user |-> user, u |-> 0, prior |-> "none"]
+     td |-> td, rel |-> rel, user |-> user, u |-> 0, prior |-> "none", entry |-> "simulator"]
+\* the same search started through a scan-family entry point (scan.steady_state & co: a worker builds a fresh
+\* Simulator per row and runs the search at the default tolerance with the norm mode it was given)
+ViaScan(c) == [c EXCEPT !.entry = "scan"]
+\* the case as the loop actually runs it
+Eff(c) == IF c.entry = "scan" /\ ScanNorm = "absolute" THEN [c EXCEPT !.rel = FALSE] ELSE c
 \* the same case on a simulator with a history:  "sim"      : simulate(100) succeeded before the search (the search
 \*                                                             continues from that state; its results stay held)
 \*                                               "simclear" : simulate(100), then clear_results (fresh again)
@@ -104,6 +111,13 @@ WithPrior(c, p) == [c EXCEPT !.prior = p]
 \*                                                             the result has two segments, two steady-state points
 PriorOps(p) == CASE p = "none" -> <<>> [] p = "sim" -> <<"simulate">> [] p = "simclear" -> <<"simulate", "clear">>
                  [] p = "ssupd" -> <<"steady", "update">>
+\*                                               "protocol" : simulate_protocol (one step of 100 under the case's
+\*                                                             parameters) succeeded before the search
+\*                                               "simupdvar": simulate(100) from other initial values, then
+\*                                                             update_variables to this case's initial state: the
+\*                                                             search starts from there, the earlier rows stay held
+                 [] p = "protocol" -> <<"simulate">>
+                 [] p = "simupdvar" -> <<"simulate", "setstate">>
 \* the same network with every concentration divided by 2^u (small concentrations: the absolute and the relative
 \* criterion then differ in strictness the other way round)
 Scaled(c, u) == [c EXCEPT !.u = u]
@@ -154,6 +168,8 @@ HasZeroVar(c) == c.kind = "relax" /\ \E i \in DOMAIN c.ystar : c.ystar[i] = 0 /\
 SsUpd(S) == {WithPrior(c, "ssupd") : c \in {d \in S : /\ d.net \in {"pool1", "pools2"} /\ ~d.user /\ d.u = 0 /\ d.td # 1024
                                                        /\ \A i \in DOMAIN d.ystar : d.ystar[i] + d.dev[i] >= 1 /\ d.dev[i] # 0}}
 Histories(S) == {WithPrior(c, p) : c \in {d \in S : ~d.user /\ d.u = 0}, p \in {"sim", "simclear"}}
+                \cup {WithPrior(c, p) : c \in {d \in S : ~d.user /\ d.u = 0 /\ d.net \in {"pool1", "const1", "grow1"} /\ d.td # 1024},
+                                         p \in {"protocol", "simupdvar"}}
 RelaxCases == Unscaled \cup {Scaled(c, 6) : c \in {d \in Unscaled : d.net \in {"pool1", "cycle2"}}}
               \cup Histories({c \in Unscaled : c.net \in {"pool1", "cycle2"} /\ c.td # 1024})
               \cup ZeroVar \cup SsUpd(Unscaled)
@@ -177,7 +193,16 @@ AccumCases == LET A == AccumAll \ LooseRel IN A \cup Histories(A)
 \* accumulation by less than the tolerance per loop step (here 2^-8 per step against 1/128)
 SlowAccum  == {Scaled(c, 8) : c \in {d \in Const1 : ~d.rel /\ d.td = 128}}
 
-Cases == CASE Family = "all"      -> RelaxCases \cup AccumCases
+\* searches started through the scan entry points: the scan's tolerance is the default 1e-6; concentrations of
+\* order 1 and of order 1e-5 (where the two norms decide differently: the absolute criterion is met while the
+\* state is still far from the steady state in relative terms; a pool without outflow creeps by less than the
+\* absolute tolerance per step but never meets the relative one)
+ScanCases ==
+    LET S == {c \in Pool1 \cup Const1 : c.td = 1000000 /\ ~c.user}
+    IN {ViaScan(c) : c \in S}
+       \cup {ViaScan(Scaled(c, 20)) : c \in {d \in S : d.kind = "relax" \/ d.rel}}
+
+Cases == CASE Family = "all"      -> RelaxCases \cup AccumCases \cup ScanCases
            [] Family = "relax"    -> RelaxCases
            [] Family = "accum"    -> AccumCases
            [] Family = "looserel" -> LooseRel
@@ -185,6 +210,7 @@ Cases == CASE Family = "all"      -> RelaxCases \cup AccumCases
            [] Family = "zerovar"  -> ZeroVar
            [] Family = "grow"     -> {c \in Grow1 : c.m >= 2}
            [] Family = "ssupd"    -> SsUpd(Unscaled)
+           [] Family = "scan"     -> {c \in ScanCases : c.u > 0 /\ c.rel}
            [] Family = "file"     -> LET f == JsonDeserialize(IOEnv.CASE_FILE) IN {f[j] : j \in DOMAIN f}
 
 (***************************************************************************)
@@ -245,7 +271,7 @@ MustDeclare(c, st) ==     \* the exact norm IS below the tolerance
 
 \* side conditions under which the shortcuts above are exact (checked as an invariant on every case)
 GridOK(c) ==
-    /\ Len(c.ystar) \in 1..2 /\ c.td >= 2 /\ c.m \in 0..4 /\ c.u \in 0..8
+    /\ Len(c.ystar) \in 1..2 /\ c.td >= 2 /\ c.m \in 0..4 /\ c.u \in 0..24
     /\ \A i \in DOMAIN c.ystar :
           /\ Abs(c.dev[i]) <= 32 /\ c.ystar[i] \in 0..31 /\ Abs(c.c[i]) <= 32
           /\ 2 * DiffN(c, i) <= 1073741823 \div c.td           \* products with td and the factor 2 stay below 2^30
@@ -274,6 +300,7 @@ Before ==
          [] Head(todo) = "steady"   -> held' = "rows" /\ off' = 0    \* one steady-state point held; the integrator
                                                                      \* stands at it (the new search counts from here)
          [] Head(todo) = "update"   -> UNCHANGED <<held, off>>        \* the case's own parameters are now in force
+         [] Head(todo) = "setstate" -> held' = held /\ off' = 0         \* the integrator restarts from the new state
     /\ todo' = Tail(todo)
     /\ UNCHANGED <<cs, s, status, aliased>>
 
@@ -281,10 +308,11 @@ Before ==
 
 \* while y1 aliases y2 the difference is identically zero: 0 < tol, and 0 / y1_i = 0 unless y1_i = 0 (nan)
 P == s + off
-CanNum  == IF aliased THEN (cs.rel => \A i \in DOMAIN cs.ystar : ~Y1Zero(cs, P + 1, i)) ELSE CanDeclare(cs, P)
-MustNum == IF aliased THEN (cs.rel => \A i \in DOMAIN cs.ystar : ~Y1Zero(cs, P + 1, i)) ELSE MustDeclare(cs, P)
-Can  == CASE NormKind(cs, P) = "num" -> CanNum  [] NormKind(cs, P) = "inf" -> FALSE [] OTHER -> NanRule = "converged"
-Must == CASE NormKind(cs, P) = "num" -> MustNum [] NormKind(cs, P) = "inf" -> FALSE [] OTHER -> NanRule = "converged"
+E == Eff(cs)
+CanNum  == IF aliased THEN (E.rel => \A i \in DOMAIN cs.ystar : ~Y1Zero(E, P + 1, i)) ELSE CanDeclare(E, P)
+MustNum == IF aliased THEN (E.rel => \A i \in DOMAIN cs.ystar : ~Y1Zero(E, P + 1, i)) ELSE MustDeclare(E, P)
+Can  == CASE NormKind(E, P) = "num" -> CanNum  [] NormKind(E, P) = "inf" -> FALSE [] OTHER -> NanRule = "converged"
+Must == CASE NormKind(E, P) = "num" -> MustNum [] NormKind(E, P) = "inf" -> FALSE [] OTHER -> NanRule = "converged"
 
 Declare ==
     /\ todo = <<>>
@@ -323,7 +351,7 @@ AccumFails     == cs.kind \in {"lin", "grow"} => status # "ok"
 RelaxConverges == (cs.kind = "relax" /\ ~(cs.rel /\ HasZeroVar(cs))) => status # "fail" /\ s <= 40
 UndefinedIsNotConvergence ==
     /\ (cs.rel /\ HasZeroVar(cs)) => status # "ok"
-    /\ (status = "ok" /\ s >= 1) => NormKind(cs, P - 1) = "num" \/ aliased
+    /\ (status = "ok" /\ s >= 1) => NormKind(E, P - 1) = "num" \/ aliased
 
 \* Reported fluxes balance: the fluxes reported with the steady-state point of the LAST segment are the network's
 \* fluxes at that point under the parameter values UsedSeg says.  Under the point's own parameters the net flux
@@ -351,11 +379,11 @@ GetResult ==
 ScanRow   == IF status = "ok" THEN "state" ELSE "nan"
 Plumbing ==
     Done => /\ (GetResult.k = "value") = (status = "ok")
-            /\ status = "ok" => GetResult.last = P /\ GetResult.earlier = (cs.prior \in {"sim", "ssupd"})
+            /\ status = "ok" => GetResult.last = P /\ GetResult.earlier = (cs.prior \in {"sim", "ssupd", "protocol", "simupdvar"})
             /\ (ScanRow = "nan") = (status = "fail")
             /\ status = "fail" => s = MaxSteps
-            /\ todo = <<>> /\ off = (IF cs.prior = "sim" THEN 1 ELSE 0)
-            /\ status = "ok" => GetResult.segments = (IF cs.prior \in {"sim", "ssupd"} THEN 2 ELSE 1)
+            /\ todo = <<>> /\ off = (IF cs.prior \in {"sim", "protocol"} THEN 1 ELSE 0)
+            /\ status = "ok" => GetResult.segments = (IF cs.prior \in {"sim", "ssupd", "protocol", "simupdvar"} THEN 2 ELSE 1)
 
 \* a verdict that would flip if the tolerance were 10 times larger sits on a threshold (numerically fragile):
 \* in this family only accumulation judged by the relative norm with 1 / tol within a factor 10 of MaxSteps
